@@ -157,6 +157,18 @@ func c07SendCloseExclusion(c *Check, P string, r *GCRoles) {
 		n += len(CloseSites(fn, r.isOut))
 	}
 	c.Report(n == len(closes), P+".O3", "WHO-MAY-CLOSE", SC, SC.Pos(), "output channel", "only the subscription close function closes an output channel")
+	// the subscription's closed flag is read and written under its sending mutex only
+	for _, a := range r.LA.Accesses(r.SClosed) {
+		fn := HomeFn(a.Ins.Parent())
+		if fn == r.Subscribe {
+			continue // construction
+		}
+		if fn == r.SubClose && !a.Write {
+			continue // the close function is the only writer and runs once per subscription (SUBSCRIPTION-CLOSED-ONCE): its own early read cannot race
+		}
+		held := r.LA.Held(a.Ins)
+		c.Report(held[r.idSending] == 'W', P+".O2", "SUBSCRIPTION-CLOSED-FLAG-GUARDED", fn, a.Ins.Pos(), a.What+" of the subscription's closed flag", "the subscription's closed flag is accessed with its sending mutex held (it is written by the close function under that mutex)", "held: "+held.String())
+	}
 	// the send re-tests the flag in the same critical section, every iteration
 	_, notClosed := BoolEdges(D, func(v ssa.Value) bool { return AllOrigins(v, IsFieldLoad(r.SClosed)) })
 	var closedTests []ssa.Instruction
@@ -397,6 +409,25 @@ func c07ClosedChecks(c *Check, P string, r *GCRoles) {
 			_, s := held[r.idSubs]
 			_, t := held[r.idTopic]
 			c.Report(!s && !t, P+".O5", "CLOSED-CHECK-BEFORE-LOCKS", Pub, ck.Pos(), "closed check in Publish", "Publish asks whether the Pub/Sub is closed before it takes the subscribers lock and the topic mutex (asked while holding them it waits for Close, which waits for the teardowns, which wait for these locks)", "held: "+held.String())
+		}
+		// the same holds anywhere in the package, not only in Publish
+		for _, fn := range r.Funcs {
+			if fn == Pub {
+				continue
+			}
+			for _, cl := range CallsIn(fn) {
+				isAsk := CalleeFn(cl.Common()) == r.IsClosed
+				if op, isOp := r.LA.opOf(cl); isOp && (op.mode == 'W' || op.mode == 'R') && op.id == r.idClosedLock {
+					isAsk = true
+				}
+				if !isAsk {
+					continue
+				}
+				held := r.LA.Held(cl)
+				_, s := held[r.idSubs]
+				_, t := held[r.idTopic]
+				c.Report(!s && !t, P+".O5", "CLOSED-LOCK-NOT-UNDER-SUBSCRIBER-LOCKS", fn, cl.Pos(), "closed check / closed lock", "the closed lock is never asked for while the subscribers lock or a topic mutex is held (Close keeps it while waiting for the teardowns, which need those locks)", "held: "+held.String())
+			}
 		}
 		// the reader takes the lock
 		for _, ld := range FieldLoads(r.IsClosed, r.Closed) {
@@ -762,6 +793,12 @@ func c07Decorator(c *Check, P string) {
 	for _, w := range waits {
 		for _, ic := range inner {
 			c.Report(Dominates(cls, ic, w), P+".O7", "INNER-CLOSE-BEFORE-WAIT", cls, w.Pos(), "Wait", "the inner subscriber is closed before the decorator waits for its pumps (their input channels get closed)")
+		}
+	}
+	{
+		re := ReachEntry(cls, NewCut().AddInstrs(instrsOf(waits)...))
+		for i, ret := range Returns(cls) {
+			c.Report(!re[ret], P+".O7", "DECORATOR-CLOSE-WAITS", cls, ret.Pos(), fmt.Sprintf("Close return#%d", i), "every Close call returns only after the pumps ended, also a second Close that overlaps the first (no 'already closing' shortcut)")
 		}
 	}
 	// signals raised in Close before Wait (directly or through sync.Once.Do)
